@@ -267,3 +267,41 @@ func H16c() {
 	}
 	vReached("end")
 }
+
+// H16d: compressed-timestamp records before any reference time exists (no
+// explicit timestamp in the file), arbitrary offsets: every option
+// combination returns the messages the option-free decode returns.
+func H16d() {
+	var body bytes.Buffer
+	body.Write([]byte{0x40, 0, 0, 0, 0, 2, 0, 1, 0x00, 1, 2, 0x84})
+	body.Write([]byte{0x00, 4, 1, 0})
+	body.Write([]byte{0x41, 0, 0, 20, 0, 1, 3, 1, 0x02})
+	body.Write([]byte{0x80 | 1<<5 | vByte()&0x1F, vByte()})
+	body.Write([]byte{0x80 | 1<<5 | vByte()&0x1F, vByte()})
+	hdr := make([]byte, 14)
+	vHeader14(hdr, uint32(body.Len()))
+	var out bytes.Buffer
+	out.Write(hdr)
+	out.Write(body.Bytes())
+	fc := dyncrc16.Checksum(out.Bytes())
+	out.Write([]byte{byte(fc), byte(fc >> 8)})
+	data := out.Bytes()
+	base, berr := Decode(bytes.NewReader(data))
+	useLog, uf, um := vBool(), vBool(), vBool()
+	var opts []DecodeOption
+	if useLog {
+		opts = append(opts, WithLogger(&vLogger{}))
+	}
+	if uf {
+		opts = append(opts, WithUnknownFields())
+	}
+	if um {
+		opts = append(opts, WithUnknownMessages())
+	}
+	f, err := Decode(bytes.NewReader(data), opts...)
+	vAssert(berr == nil && err == nil && f != nil && base != nil, "C16.noref.decodes")
+	if f != nil && base != nil {
+		vSameContent(f, base, 3, "C16.options.same-messages")
+	}
+	vReached("end")
+}
